@@ -2,8 +2,12 @@ package main
 
 import (
 	"fmt"
+	"math/big"
+	"reflect"
 	"sort"
 	"strings"
+
+	"github.com/MinterTeam/minter-go-node/coreV2/state/commission"
 
 	"github.com/MinterTeam/minter-go-node/coreV2/types"
 )
@@ -195,6 +199,31 @@ func Delta(prev, cur Dump) []string {
 	}
 	sort.Strings(out)
 	return out
+}
+
+// priceToCommission converts the node's internal price record to the exported form (for a uniform digest).
+func priceToCommission(p *commission.Price) types.Commission {
+	var c types.Commission
+	pv := reflect.ValueOf(p).Elem()
+	cv := reflect.ValueOf(&c).Elem()
+	for i := 0; i < cv.NumField(); i++ {
+		name := cv.Type().Field(i).Name
+		if name == "Coin" {
+			c.Coin = uint64(p.Coin)
+			continue
+		}
+		src := name
+		if name == "CreateTicker7_10" {
+			src = "CreateTicker7to10"
+		}
+		f := pv.FieldByName(src)
+		if f.IsValid() {
+			if b, ok := f.Interface().(*big.Int); ok && b != nil {
+				cv.Field(i).SetString(b.String())
+			}
+		}
+	}
+	return c
 }
 
 func validatorLine(total, accum string, abs *types.BitArray, pk types.Pubkey) string {
